@@ -100,3 +100,51 @@ LIBRARY = {
     "ta": "A{{{1|}}}B", "tb": "", "tc": "{{{x|dx}}}{{ta|{{{1|}}}}}", "td": "{|", "te": "|-\n| c", "tf": "|}",
     "tg": "* it", "th": "</div>", "ti": "'''", "tj": "<div>", "tk": "\n== H ==\n", "tl": "{{tb}}[[x|{{{1|y}}}]]",
 }
+
+
+# ---- repeated-unit runs (C01): prefix + opener + unit*n + tail --------------------------------------------------
+# A short unit repeated many times after an opener that is never (or wrongly) closed.  The interesting quantity is how
+# the processing time grows with n, so the generator returns the FAMILY and the caller instantiates it for a ladder of
+# n (never parse a large n first: a regular expression that backtracks is not interruptible by a signal).
+RUN_PREFIXES = ["", "", "", "", "x ", "x\n", "\n* ", "{|\n| ", "== ", "{{ta|", "[[a|", "<div>", "''", "<ref>", "{{#if:x|"]
+RUN_OPENERS = [
+    "", "<a", "<a ", "<a.", "<a-", "<i ", "<b x", "<div ", "<div class=", "<span x=", "<span x=\"a\" ", "<ref name=",
+    "<ref name=a ", "<br", "<pre ", "<nowiki ", "<math ", "<a x='", "<a x=\"", "</a", "</div ", "<<", "<!--", "<", "< a ",
+    "{{", "{{a|", "{{a|b=", "{{{", "{{{a|", "{{#if:", "{{#switch:a|", "{{#invoke:m|f|", "{{a|{{{", "{{a|[[",
+    "[[", "[[a|", "[[File:x.png|", "[[:a", "[", "[http://x ", "[//x", "[[a]]", "[[a|b]]x",
+    "{|", "{| class=", "{|\n|", "{|\n!", "{|\n|+", "{|\n|-", "|", "||", "!",
+    "=", "==", "== a", "======", "''", "'''", "'''''", "-{", "-{zh:", "~~~", ";", ":", "*", "#", "----", " ",
+    "http://x", "https://a.b/", "http://", "//a", "mailto:", "RFC ", "ISBN ", "PMID ", "&", "&#", "&#x", "__", "__TOC",
+]
+RUN_UNITS = [
+    ".c", "x-", "x:", "-a", "_a", "a.", "a b", " a", "a ", "a=", "a= ", "a=b ", "a=b-", "a-b=", "a=\"b\" ", "a='b'", "=",
+    "= ", " = ", "x=\r ", "\r", "\t", " ", "\n", "\n\n", " \n", "\n ", "-{}-", "-{", "}-", "{}", "{", "}", "}{", "{{", "}}", "{{{",
+    "}}}", "{{}}", "{{a", "a}}", "|", "||", "|a", "a|", "|=", "=|", "|a=", "[", "]", "[[", "]]", "[]", "[[a", "a]]", "][", "[[]]",
+    "'", "''", "'''", "''a", "a''", "<", ">", "<a", "a>", "</", "/>", "<>", "<a>", "</a>", "<!", "<!--", "-->", "--", "-", "!-",
+    "!", "!!", "\n|", "\n!", "\n|-", "\n*", "\n#", "\n:", "\n;", "\n=", "=\n", "\n==", "==", "= =", ":", ";", ";:", "*", "#",
+    "/", "//", "/a", ":/", "http://", "x.y", ".", "..", "a/", "?a=", "&a=", "%20", "&", "&a;", "&#", ";&", "~", "~~", "_", "__",
+    "a", "ab", "1", "é", " ", "‏", "\\", "\"", "\"\"", "\"a", "`", "$1", "0 ",
+]
+RUN_CHARS = ".-:_= \t\n|{}[]'<>/!acx1&;#*~\"\r"
+RUN_TAILS = ["", "", "", "", "\n", " x", "\nx\n", ">", "/>", "}}", "]]", "]", "|}", "-->", "\"", "=", "==", "''", "</a>", "}-"]
+
+
+def run_family(rng: random.Random) -> dict:
+    """One family of the input class 'opener + short unit repeated n times'."""
+    global _ALPHA
+    if _ALPHA is None:
+        _ALPHA = alphabet()
+    op = rng.choice(RUN_OPENERS)
+    if op.startswith("<a") and rng.random() < 0.3:
+        # any allowed tag name instead of <a
+        from wikitextprocessor.wikihtml import ALLOWED_HTML_TAGS
+        op = "<" + rng.choice(sorted(ALLOWED_HTML_TAGS)) + op[2:]
+    if rng.random() < 0.55:
+        unit = rng.choice(RUN_UNITS)
+    else:
+        unit = "".join(rng.choice(RUN_CHARS) for _ in range(rng.randint(1, 3)))
+    return {"pre": rng.choice(RUN_PREFIXES), "open": op, "unit": unit, "tail": rng.choice(RUN_TAILS)}
+
+
+def run_text(fam: dict, n: int) -> str:
+    return fam["pre"] + fam["open"] + fam["unit"] * n + fam["tail"]
